@@ -89,6 +89,13 @@ def check_tree(C, drv, root, shape, tag, edit=None):
         if np.any(~np.isfinite(me)) or np.any(y + eps == 0):
             special = True
     if lines:
+        # the whole function as the translator read it (guard, operand sources, terminal test, chain), on the same operands
+        wouts = drv.ask_many(['w.op' + ln[4:] for ln in lines])
+        for o, e, op in zip(wouts, exp, ops):
+            m = dec_bits(o) if o not in ('error', 'bad-op') else None
+            if m is None or len(m) != len(e) or max(ulp_diff(a, b) for a, b in zip(m, e)) > (0 if op in EXACT else 4):
+                C.issue('translated-evaluate-mismatch', 'correspondence', rp, op=op, model=o[:100], real=e.tolist())
+        C.extra['translated_evaluate_runs'] = C.extra.get('translated_evaluate_runs', 0) + len(lines)
         outs = drv.ask_many(lines)
         for o, e, op in zip(outs, exp, ops):
             m = dec_bits(o) if o not in ('error', 'bad-op') else None
